@@ -400,39 +400,6 @@ dedup_eps!(c17_dedup_eps_n2_n3_e150, 1.5, |v: &[Vertex<f64, i32, 2>; 3], e| hook
 // ---------------------------------------------------------------------------
 
 harness! {
-    // bound: select_balanced_simplex_indices + reorder_vertices_for_simplex (hooks), n=4, D=2, coordinates in {-2..2}
-    #[kani::unwind(7)]
-    fn c17_simplex_selection_n4() {
-        let input = [any_vertex_2d(1), any_vertex_2d(2), any_vertex_2d(3), any_vertex_2d(4)];
-        let sel = hooks::select_balanced_simplex_indices(&input);
-        if let Some(sel) = &sel {
-            assert!(sel.len() == 3);
-            assert!(sel[0] < 4 && sel[1] < 4 && sel[2] < 4, "indices in range");
-            assert!(sel[0] != sel[1] && sel[0] != sel[2] && sel[1] != sel[2], "indices distinct");
-            let re = hooks::reorder_vertices_for_simplex(&input, sel);
-            let Some(re) = re else { panic!("reorder refused valid indices") };
-            assert!(re.len() == 4);
-            // permutation: each input occurs exactly once
-            let mut i = 0;
-            while i < 4 {
-                let mut count = 0;
-                let mut j = 0;
-                while j < 4 {
-                    if same_vertex(&input[i], &re[j]) { count += 1; }
-                    j += 1;
-                }
-                assert!(count == 1, "reordered list is a permutation of the input");
-                i += 1;
-            }
-            assert!(same_vertex(&re[0], &input[sel[0]]) && same_vertex(&re[1], &input[sel[1]]) && same_vertex(&re[2], &input[sel[2]]));
-            core::mem::forget(re);
-        }
-        kani::cover!(sel.is_some(), "selection succeeded");
-        core::mem::forget(sel);
-    }
-}
-
-harness! {
     // bound: reorder_vertices_for_simplex (hook) with arbitrary index triples (any usize), n=4, D=2: Some ⇔ distinct and in range
     #[kani::unwind(7)]
     fn c17_reorder_rejects_bad_indices_n4() {
